@@ -684,6 +684,13 @@ def make_case(rng, tid, *, groups=("core",), AND=None, max_rows=8, modes=False):
         AND = rng.random() < 0.7
     g = Gen(rng, fs, AND=AND, groups=groups)
     prog = g.program()
+    if rng.random() < 0.15:
+        # a standalone csvpath: the cross-path signals are plain stop / skip / advance / fail on the csvpath that executes them
+        ren = {"stop": "stop_all", "skip": "skip_all", "advance": "advance_all", "fail": "fail_all"}
+        for c in prog["comps"]:
+            for n in L.walk(c):
+                if n["k"] == "fn" and n["name"] in ren and rng.random() < 0.7:
+                    n["name"] = ren[n["name"]]
     cfg = {"AND": AND, "noMatches": False, "keepUnmatched": False, "collecting": True, "noRun": False, "nexts": 0}
     if modes:
         cfg["noMatches"] = rng.random() < 0.5
